@@ -22,14 +22,25 @@ CHECKS = {
    technique=TECH + "clang JSON AST of the generated kernel -> loop invariants/postconditions -> z3; Python AST -> z3; "
              "replay on the compiled DLL / real kernels",
    design="DESIGN.md 6 C01"),
- "C05": dict(engine="cvc",
+ "C02": dict(engine="pyvc",
+   text="weights.get_weights, Dispersion.get_weights/_linspace and the six _weights methods are executed symbolically from the AST of "
+        "the current tree with a symbolic point count (arrays of symbolic length, elements addressed by skolem indices): values "
+        "inside the limits and the support, strictly increasing, on the documented equally spaced grid, every grid point inside "
+        "the limits takes part, unnormalised weight = documented density (by congruence on exp/log), normalisation by the sum of "
+        "all weights, centre/width resolution (relative vs absolute) and the degenerate case are discharged by z3 for all inputs.",
+   note="reals for floats (finite/NaN-free weights only through the replay grid); numpy axioms linspace/mask selection/elementwise ops; "
+        "lemmas sum_lin, sum_pos, exp>0 assumed; lognormal/schulz specified for relative widths and upper limit >= 1e-8 only",
+   technique=TECH + "Python AST -> VCs over symbolic-length arrays -> z3 (quantifier-free lemma instances); differential replay grid on get_weights",
+   design="DESIGN.md 6 C02"),
+ "C05": dict(engine="cvc+pyvc",
    text="qac_rotation/qac_apply and qabc_rotation/qabc_apply are executed symbolically from clang's AST of the generated kernel "
         "source (the macro-expanded kernel_iq.c of the current tree) and every matrix entry is proved equal to the corresponding "
         "entry of (Rz(phi)Ry(theta)Rz(psi)Rx(dphi)Ry(dtheta)Rz(dpsi))^T by a complete polynomial normal form modulo sin^2+cos^2=1; "
         "|q| preservation, qab^2=qa^2+qb^2 and the detector/phi co-rotation lemma are proved over the contract.",
    note="sin/cos uninterpreted with s^2+c^2=1 (angle addition formulas for the co-rotation lemma); doubles are reals; the Python "
-        "clauses (jitter centred on 0, orientation inactive for 1-D) are obligations of C10; kernel-level |cos dtheta| weight and "
-        "jitter defaults belong to the kernel contract (kernel_c, in progress); parity of the individual models is not covered",
+        "clauses: jitter distributions (absolute width, centred on 0, clipped to the parameter's limits) adopted from the C02 contracts, "
+        "orientation inactive for 1-D under C10; kernel-level |cos dtheta| weight, jitter defaults 0, view angles from the value "
+        "vector: kernel contract (cylinder Iq/Iqxy, parallelepiped Iqxy); parity of the individual models is not covered",
    technique=TECH + "clang JSON AST -> symbolic execution -> polynomial normal form / z3; witnesses replayed on the compiled generated source",
    design="DESIGN.md 6 C05"),
  "C06": dict(engine="cvc",
